@@ -152,6 +152,19 @@ class FunctionScope:
         # Snapshot child inputs/outputs/nodes/overrides
         fn_def = self.fn_def
         inputs = list(fn_def.inputs)
+        # A body output that is directly one of the function's inputs (the callee
+        # passes an argument through) needs a node of its own: route it through
+        # Identity, as the control-flow branch builders do.
+        outputs = list(outputs)
+        for out_index, out_val in enumerate(outputs):
+            if any(out_val is fin for fin in inputs):
+                passthrough = self.ctx.builder.Identity(
+                    out_val,
+                    _outputs=[self.ctx.fresh_name(f"{out_val.name}_identity")],
+                )
+                passthrough.type = out_val.type
+                passthrough.shape = out_val.shape
+                outputs[out_index] = passthrough
         self._outputs = list(outputs)
         nodes = list(self.ctx._nodes)
         overrides = dict(self.ctx._attr_overrides)
